@@ -11,6 +11,7 @@ require (
 	github.com/blugelabs/ice v1.0.0
 	github.com/blugelabs/ice/v2 v2.0.1
 	github.com/caio/go-tdigest v3.1.0+incompatible
+	golang.org/x/text v0.3.0
 )
 
 require (
@@ -24,7 +25,6 @@ require (
 	github.com/golang/snappy v0.0.1 // indirect
 	github.com/klauspost/compress v1.15.2 // indirect
 	golang.org/x/sys v0.0.0-20220520151302-bc2c85ada10a // indirect
-	golang.org/x/text v0.3.0 // indirect
 )
 
 replace github.com/blugelabs/bluge => /repo
